@@ -30,7 +30,7 @@ P = {
          'stream intervals tile the serial one (from the C16 theorems on the translated split). The real drivers run on a thread-based MPI shim (P up to 33, permuted reductions) '
          'bit for bit against the model; the serial run of the same specification is the oracle.',
          'invariant over lock-step MPI semantics + translated work split theorems; shim-MPI correspondence with permuted reductions',
-         'MPI_Allreduce semantics (same sum in some order on all ranks) is an assumption; real mpirun only in the thorough tier for order-insensitive observables.'),
+         'MPI_Allreduce semantics (same sum in some order on all ranks) is an assumption, validated under real OpenMPI (mpirun -np 2,3 in the quick tier, 1..8 in the thorough tier) for order-insensitive observables.'),
  'C05': ('Theorems: decimal round trip for every finite value of binary32/64/x87-80 with 9/17/21 significant digits (Flocq, any tie-breaking), and structural round trip of the three '
          'checkpoint codecs (deser (ser c) = c up to the absent first state) for any counts of results, distributions, bins, channels, generators; text determines the checkpoint. '
          'Real serialize / istream constructors are compared token by token and accessor by accessor with the model, every printed number checked to be the correctly rounded decimal.',
@@ -41,9 +41,10 @@ P = {
          'simulation relation (equal up to nz counters) proved by induction over calls and iterations; paired-run correspondence',
          'Channel maps must honour their documented contract; overflow of finite sums is not excluded by proof.'),
  'C07': ('Real-arithmetic theorems about the model\'s refine_pdf / icdf: no out-of-bounds scan, endpoints 0 and 1, non-decreasing (strict stays strict), equal share of importance per new bin, '
-         'any number of successive refinements, zero data leave the grid unchanged (also for the three IEEE formats), every point lies in its reported bin with weight prod(bins x width).',
+         'any number of successive refinements, zero data leave the grid unchanged (also for the three IEEE formats), every point lies in its reported bin with weight prod(bins x width); '
+         'IEEE supplements (Properties_C07f/g): for every format the bin index of every canonical number in [0,1] is below the bin count (bins < 2^prec) and the computed point lies in its reported bin; a refined boundary never lies below the old bin it was interpolated in.',
          'loop-invariant proof of the redistribution scan over the reals + bit-exact correspondence of refinement and inverse CDF',
-         'Monotonicity under rounding and overflow of the smoothing sums are not proved (named in the property file); u = 1 over the reals excluded (float guard is tied, not proved).'),
+         'Full monotonicity under rounding and overflow of the smoothing sums are not proved (named in the property file); u = 1 over the reals excluded (proved for the IEEE formats instead).'),
  'C08': ('Real-arithmetic theorems about the model\'s refine_weights for any libm with pow(0,b)=0, pow(d,b)>0: probability vector, disabled stay disabled, formula with the floor, '
          'min/(1+n min) bound, zero-information data leave the weights unchanged, chains of refinements; IEEE lemma that a disabled channel stays exactly zero.',
          'algebraic proof over the reals on the executed model + bit-exact correspondence inside real runs',
@@ -57,9 +58,9 @@ P = {
          'induction over calls on the iteration model + translated predictor arithmetic + draw counting on real engines',
          'floor(log2 R) agreement between hep-mc and libstdc++ is measured, not proved.'),
  'C11': ('Real-arithmetic theorems about the model\'s fill1d / fill2d: a finite value goes to flat index ky*bx+kx iff the coordinate lies in that half-open bin, to no bin outside; mid-points enumerate the '
-         'same order; each bin reports the full calls and scaled sums; IEEE lemma: the float->size_t cast is only reached with a value in range (no UB) for positive finite bin sizes.',
+         'same order; each bin reports the full calls and scaled sums; IEEE: the float->size_t cast is only reached with a value in range (no UB), and (Properties_C11f) the selected bin k satisfies k(1-u)^2 <= exact position < (k+1)(1+u), i.e. the bin of the coordinate or an adjacent one within a rounding error of the edge, with the converse for interior coordinates.',
          'case analysis on the executed fill model over the reals + Flocq no-UB lemma; edge/neighbour correspondence',
-         'Edge coordinates within one rounding error may go to either bin (as the property grants).'),
+         'Edge coordinates within one rounding error may go to either bin (as the property grants; the float theorems quantify that zone); fill2d placement under rounding is tied, not proved.'),
  'C12': ('Law-generic protocol theorems on the driver loop: iterations in order, callback once per iteration with exactly the results so far, stop iff it returns false; built-in decision: '
          'target 0 never stops (incl. NaN), positive target stops exactly at the first iteration whose combined relative error is <= target (NaN does not reach a target).',
          'induction over the calls list on the run model + IEEE comparison lemmas; scripted-callback correspondence',
@@ -84,7 +85,7 @@ P = {
          'induction over calls on event traces of the iteration model; event-log correspondence incl. buffer identity',
          'Object lifetime / aliasing of the point classes is visible only to the harness checks (buffer identity events).'),
  'C18': ('File-system model theorems: for any text, any chunking into writes and any crash point (between operations or inside a write) the final name holds the previous or the complete new text; whole runs; '
-         'the in-place variant is refuted. The real system calls are recorded and compared with the model\'s operation list; the real process is killed at every operation and inside writes, the file inspected and the run resumed.',
+         'the in-place variant is refuted; composed with the codec and resume theorems (Properties_C18r): in every crash state the file is untouched or holds the text of a checkpoint of the run, which loads, and running the remaining calls reproduces the final text. The real system calls are recorded and compared with the model\'s operation list; the real process is killed at every operation and inside writes, the file inspected and the run resumed.',
          'crash-prefix invariant over an operation-list model + LD_PRELOAD system-call correspondence + kill enumeration',
          'POSIX rename atomicity and kill semantics are assumptions; no power-loss model.'),
  'C19': ('Law-generic theorems: iteration k+1 samples with refine(state_k, adjustment_k) under the checkpoint\'s parameters, result k records the state its points were drawn with, iteration 0 uses the user\'s '
